@@ -450,8 +450,19 @@ func scase(r *rng.R, i int, o *out.W) {
 				ts = append(ts, t)
 			}
 		}
+		if n > 0 && r.P(1, 6) && !seen[0] {
+			ts = append(ts, 0) // a cut at the very start (no effect on the pieces)
+		}
+		// SplitAt sorts its positions: half of the cases hand them over in random order
+		us := append([]float64{}, ts...)
+		if r.Bool() {
+			for k := len(us) - 1; k > 0; k-- {
+				j := r.Intn(k + 1)
+				us[k], us[j] = us[j], us[k]
+			}
+		}
 		sort.Float64s(ts)
-		pieces = p.SplitAt(append([]float64{}, ts...)...)
+		pieces = p.SplitAt(us...)
 	})
 	fam := "S:" + b.fam
 	if len(ts) == 0 {
